@@ -197,7 +197,7 @@ def harness_factory(m, start_idx, target_idx, part=None):
 from traits.adaptation.api import supports_protocol as _g_supports, adapt as _g_adapt
 
 
-def adaptsto_harness(ex):
+def adaptsto_harness(ex, fixed_position=None):
     """AdaptsTo / Supports traits apply adapt() to assigned values: the shadow attribute name_ always holds what adapt() yields
     for the value just assigned, also when the same object is assigned again after the offers' behaviour changed"""
     from traits.api import HasTraits, AdaptsTo, Supports, Any, TraitError
@@ -238,15 +238,17 @@ def adaptsto_harness(ex):
         # where the adapting trait sits: on its own (C fast path), inside a compound (C validate_trait_complex), inside a
         # Union / a container (Python validate), or declared by class NAME (resolved on first use: Python validate first)
         from traits.api import Either, Union, List as _List, Int as _Int
-        shape = ex.choice("position", 10)
+        shape = ex.choice("position", 10) if fixed_position is None else fixed_position
         use_supports = shape != 0
         if shape >= 2 and ex.sym:
             # the compound / container positions run natively (their validators call back into Python for the inner trait)
             return _adaptsto_native(ex, mgr, state, Source, Target, Ad, shape)
 
         dflt_src = Source()
+        from traits.api import HasStrictTraits
+        OwnerBase = HasStrictTraits if ex.flag("strict_owner") else HasTraits
 
-        class Owner(HasTraits):
+        class Owner(OwnerBase):
             t = Supports(Target) if use_supports else AdaptsTo(Target)
             d = Supports(Target) if use_supports else AdaptsTo(Target)
 
@@ -259,8 +261,14 @@ def adaptsto_harness(ex):
         x = Source()
         k = 3
         trace = []
+        if ex.flag("instance_trait_clone"):
+            o.on_trait_change(lambda: None, "t")      # gives the object its own clone of the definition
         if ex.flag("read_the_dynamic_default_first"):
-            dv = o.d
+            try:
+                dv = o.d
+            except Exception as e:
+                ex.check(False, "reading the default of an adapting trait raises nothing (%s)" % type(e).__name__)
+                return {"trace": trace}
             if use_supports:
                 ex.check(isinstance(dv, Ad) and dv.adaptee is dflt_src, "a Supports trait whose default method returns an adaptable object "
                                                                         "reads as the adapter (the default is adapted like an assigned value)")
@@ -308,11 +316,57 @@ def adaptsto_harness(ex):
                     if use_supports:
                         ex.check(isinstance(stored, Ad) and stored.adaptee is val and stored.gen == state["gen"],
                                  "Supports stores the adapter adapt() yields now")
+                        ex.check(shadow is val, "Supports' shadow attribute holds the value as it was assigned")
                     else:
                         ex.check(stored is val, "AdaptsTo stores the original value")
                         ex.check(isinstance(shadow, Ad) and shadow.adaptee is val and shadow.gen == state["gen"],
                                  "AdaptsTo's shadow attribute holds the adapter adapt() yields now (also on re-assignment of the same object)")
         return {"trace": trace}
+    finally:
+        set_global_adaptation_manager(old_mgr)
+
+
+def global_manager_harness(ex):
+    """the global adaptation manager can be replaced and reset: resetting installs a NEW, empty manager and leaves the manager the
+    application built alone - its offers (and the chains through them) are found again when it is used or re-installed"""
+    from traits.api import HasTraits, Supports, TraitError
+    from traits.adaptation.api import (get_global_adaptation_manager, set_global_adaptation_manager,
+                                       reset_global_adaptation_manager, adapt as g_adapt)
+    old_mgr = get_global_adaptation_manager()
+    try:
+        class A_(HasTraits):
+            pass
+
+        class B_(HasTraits):
+            pass
+
+        class C_(HasTraits):
+            pass
+        mine = AdaptationManager()
+        mine.register_factory(lambda a: B_(), A_, B_)
+        mine.register_factory(lambda b: C_(), B_, C_)
+        set_global_adaptation_manager(mine)
+        ex.check(isinstance(g_adapt(A_(), C_, None), C_), "(fixture) the installed manager finds the two-step chain")
+        reset_global_adaptation_manager()
+        fresh = get_global_adaptation_manager()
+        ex.check(fresh is not mine and g_adapt(A_(), C_, None) is None, "after a reset the global manager is a new, empty one")
+        ex.check(isinstance(mine.adapt(A_(), C_, None), C_), "... and the manager that was replaced keeps its offers")
+        if ex.flag("offer_registered_after_the_reset"):
+            fresh.register_factory(lambda a: C_(), A_, C_)
+            ex.check(len(mine._adaptation_offers.get(mine._get_type_name(A_) if hasattr(mine, "_get_type_name") else "", [])) <= 1 and
+                     isinstance(mine.adapt(A_(), B_, None), B_), "offers registered with the new global manager do not reach the old one")
+        set_global_adaptation_manager(mine)
+
+        class Owner(HasTraits):
+            t = Supports(C_)
+        o = Owner()
+        try:
+            o.t = A_()
+            ok = isinstance(o.t, C_)
+        except TraitError:
+            ok = False
+        ex.check(ok, "re-installed, the application's manager serves Supports traits as before")
+        return {"ok": ok}
     finally:
         set_global_adaptation_manager(old_mgr)
 
@@ -445,11 +499,15 @@ def provides_harness(ex):
 def obligations(tier, build):
     from vt import cenv
     cenv.load_program(build)
-    obs = [Obligation("adaptsto/histories", adaptsto_harness,
-                      bounds={"history length": 3, "operations": ["factory yields a new adapter", "factory starts/stops refusing",
-                                                                  "assign the same object", "assign a fresh object",
-                                                                  "assign a stand-in whose __class__ reports the target class"]},
-                      leverage="choice feasibility only", max_paths=20000),
+    obs = [Obligation("adaptsto/histories/position=%d" % pos_, (lambda ex, pos_=pos_: adaptsto_harness(ex, pos_)),
+                      bounds={"history length": 3, "position of the adapting trait": pos_,
+                              "operations": ["factory yields a new adapter", "factory starts/stops refusing",
+                                             "assign the same object", "assign a fresh object",
+                                             "assign a stand-in whose __class__ reports the target class"],
+                              "owner": "HasTraits / HasStrictTraits, with or without an instance clone of the definition (positions 0, 1)"},
+                      leverage="choice feasibility only", max_paths=60000) for pos_ in range(10)] + [
+           Obligation("global-manager", global_manager_harness, bounds={"history": "build, register two offers, install, reset, (register), re-install"},
+                      leverage="choice feasibility only"),
            Obligation("provides/declarations", provides_harness,
                       bounds={"protocols": "3 interfaces, 1 or 2 declared", "interface declares a method named register": "symbolic",
                               "falsy provider": "symbolic", "subclass of the provider": "symbolic"},
